@@ -398,7 +398,9 @@ func TestExhaustive(t *testing.T) {
 // ---------------------------------------------------------------------------
 // random type-directed trees
 
-var numLits = []string{"0", "1", "2", "3", "7", "10", "0.5", "2.5", "1.5", "7.9", "123.456", "1.234560e+02", "1e+02", "100000", "123456789", "1e+308", "0.001"}
+// (spellings with leading zeros are decimal like every other literal: 010 is ten)
+var numLits = []string{"0", "1", "2", "3", "7", "10", "0.5", "2.5", "1.5", "7.9", "123.456", "1.234560e+02", "1e+02", "100000", "123456789", "1e+308", "0.001",
+	"010", "007", "0100", "00", "017", "08", "010.5", "0.50", "00.5", "01e+02"}
 var strLits = []string{"", "a", "b", "abc", "ab", "1", "A", "a b", "é", "^a", "a.c", "[a-c]+", "b$", "a|b", "x'y", `x"y`, "line\nbreak", "tab\t."}
 var layouts = []string{"", "", "", "  ", "\n", "\n  ", "\t"}
 var kwCase = map[string][]string{
